@@ -2,7 +2,12 @@
 
 Streams (all randomness from the seed):
   totk        functional correspondence: real `c.to_tk()` (commands as a DAG, n_qubits, n_bits,
-              post_selection, post_processing boxes/offsets, scalar, error class) == model
+              post_selection, post_processing boxes/offsets, scalar, error class) == model, on EVERY
+              generated circuit, inside and outside the proved fragment (the model transcribes the
+              known defects F23/F24/F25/F27 too); a disagreement sends the circuit to the oracle
+              even beyond the oracle's budget
+  ps_count    the conclusion of `to_tk_keeps_post_selections` (one post-selected bit per Bra bit,
+              for every circuit) re-evaluated on every answer of the model
   refines     the conclusion of the Lean theorem evaluated on every export inside the proved
               fragment (`viol=-`): commands / post-selection / post-processing routing are those of
               the wire-id specification `canon` up to an injective register naming
@@ -17,7 +22,9 @@ Streams (all randomness from the seed):
               for every export inside the fragment: canon(from_tk(to_tk(c))) is canon(c) up to an
               injective naming, with the post-selected measurements moved to the end
   oracle      (the property) exported circuit simulated exactly + post-selection + scalar +
-              post-processing == the circuit's mixed evaluation; eval(backend) / get_counts(backend)
+              post-processing == the circuit's mixed evaluation (a failure is a known finding only
+              in that finding's region AND if the real export equals the model's, see
+              `e2e_signature`); eval(backend) / get_counts(backend)
               with an exact-frequency backend == local evaluation; from_tk(to_tk(c)) evaluates to
               what the exported circuit means; from_tk of random pytket circuits == pytket's unitary
               / the simulated distribution
@@ -139,7 +146,10 @@ def run(tier, seed, replay=None):
                 "Discard (qubits and bits), scalars (pure and mixed), classical gates (0/1 matrices of "
                 "arities 0-2 -> 1-2) and Bits effects}, 0-4 wires at every depth, 1-8 layers (8% start with three "
                 "prepared qubits, one Measure(n >= 2) box and a bit swap / overriding Measure that tells its bits "
-                "apart), preparations / "
+                "apart), plus 24 (quick) / 200 (thorough) circuits with two or three post-selected qubits "
+                "(one Bra(n), single Bras at different times, a Measure in between or before) made with or "
+                "without a classical wire and followed by one or two later Bits(0..) preparations left / right "
+                "of / between the bit wires that rename all the post-selected bits at once, preparations / "
                 "post-selections / swaps at arbitrary depths, ~6% boxes outside the exportable set; "
                 "non-trivial = export succeeds with at least one preparation or measurement not at the "
                 "right end of its register list, or a swap, or a non-empty post-processing; plus random "
@@ -148,7 +158,8 @@ def run(tier, seed, replay=None):
         "to_tk_refines is proved inside the fragment delimited by `violation` (no Bits left of a "
         "non-post-selected register, no Discard of bits, no override_bits Measure after classical "
         "post-processing); each excluded shape has a decided counter-witness and is a known finding on "
-        "/repo (F23, F24, F25, F27)",
+        "/repo (F23, F24, F25, F27); for every circuit (no fragment) to_tk_keeps_post_selections: one "
+        "post-selected bit per Bra bit, distinct keys, existing bits",
         "from_tk is modelled one-for-one and proved, for every well-formed tket circuit, to be defined, "
         "well-typed and to place every gate on the units tket names (wire-identity trace; measured bits at "
         "the rank of the bit among the non-post-selected ones; make_units_adjacent for every width); the "
@@ -171,8 +182,10 @@ def run(tier, seed, replay=None):
     n_tk = 50 if quick else 600
     budget = dict(corr=300 if quick else 5000,      # functional correspondence + refinement
                   oracle=90 if quick else 1200,    # + meaning of the export
-                  roundtrip=55 if quick else 700,  # + import of the export
-                  backend=30 if quick else 350,     # + eval / get_counts through the exact backend
+                  roundtrip=55 if quick else 620,  # + import of the export
+                  backend=30 if quick else 300,     # + eval / get_counts through the exact backend
+                  chain=24 if quick else 200,       # circuits of ps_chain_prefix (meaning of the export for all)
+                  chain_full=8 if quick else 40,    # ... of which with import and backend
                   max_units=5 if quick else 6)      # size limit for evaluating imported circuits
     rng = random.Random(seed)
     drv = Driver()
@@ -312,28 +325,114 @@ WITNESSES = [
     # two post-selected bits with adjacent tket indices
     ("", [(("ket", (1, 0, 1)), 0), (("bra", (1, 0)), 0), (("measure", 1, 1, 0), 0)]),
     ("", [(("ket", (1, 0, 1)), 0), (("bra", (1, 0)), 1), (("gate", "H"), 0), (("measure", 1, 1, 0), 0)]),
+    # several post-selected bits shifted at once by a later Bits preparation (rename_units, tk.py:71-83;
+    # seeded C13-m2): the new index of one is the old index of the next
+    # inside the fragment:  Ket(1, 0) @ Bits(0) >> Bra(1, 0) @ Id(bit) >> Id(bit) @ Bits(0)
+    ("", [(("ket", (1, 0)), 0), (("bits", (0,), 0), 2), (("bra", (1, 0)), 0), (("bits", (0,), 0), 1)]),
+    # inside:  Ket(0, 1, 1) >> H @ Id(2) >> Measure() @ Id(2) >> Id(bit) @ Bra(1) @ Id(1) >> Id(bit) @ Bra(1)
+    #          >> Id(bit) @ Bits(0, 0)        (two Bras at different times, shift by two)
+    ("", [(("ket", (0, 1, 1)), 0), (("gate", "H"), 0), (("measure", 1, 1, 0), 0), (("bra", (1,)), 1),
+          (("bra", (1,)), 1), (("bits", (0, 0), 0), 1)]),
+    # inside:  no classical wire before the Bras, two later preparations:
+    #          Ket(1, 0, 1) >> Bra(1, 0, 1) >> Bits(0) >> Id(bit) @ Bits(0)
+    ("", [(("ket", (1, 0, 1)), 0), (("bra", (1, 0, 1)), 0), (("bits", (0,), 0), 0), (("bits", (0,), 0), 1)]),
+    # region of F23:  Bits(0) @ Ket(1, 0) >> Id(bit) @ Bra(1, 0) >> Bits(0) @ Id(bit)
+    ("", [(("bits", (0,), 0), 0), (("ket", (1, 0)), 1), (("bra", (1, 0)), 1), (("bits", (0,), 0), 0)]),
+    # region of F23:  Ket(1, 1, 0, 1) >> Measure() @ Id(3) >> Id(bit) @ Bra(1) @ Id(2) >> Id(bit) @ Measure() @ Id(1)
+    #                 >> Id(bit @ bit) @ Bra(1) >> Bits(0, 0) @ Id(bit @ bit)     (post-selected bits 1 and 3, shift by two)
+    ("", [(("ket", (1, 1, 0, 1)), 0), (("measure", 1, 1, 0), 0), (("bra", (1,)), 1), (("measure", 1, 1, 0), 1),
+          (("bra", (1,)), 2), (("bits", (0, 0), 0), 0)]),
+    # region of F23:  Measure + post-selection of the same qubit, then a Bra, then two preparations on the left
+    ("", [(("ket", (1, 0)), 0), (("measure", 1, 0, 0), 0), (("bra", (1,)), 0), (("bra", (0,)), 1),
+          (("bits", (0,), 0), 0), (("bits", (0,), 0), 0)]),
 ]
 
 
+def bra_bits(spec):
+    """Number of post-selected qubits of a spec: to_tk records one post-selected bit for each
+    (tk.py:187-196); `to_tk_keeps_post_selections` in lean/Props/C13.lean for the model."""
+    return sum(len(b[1]) for b, _ in spec[1] if b[0] == "bra")
+
+
+def export_defect(t, spec):
+    """A reason for which the side data of an export cannot mean the circuit, by symptom (None if
+    there is none): these names only REFINE the signature of a failure of the property (the export
+    has no meaning or another one than the circuit), they are not demands of their own."""
+    ps = {int(k): int(v) for k, v in t.post_selection.items()}
+    if len(ps) < bra_bits(spec):
+        return "to_tk:post_selection_lost"
+    if len(ps) > bra_bits(spec):
+        return "to_tk:post_selection_spurious"
+    if any(k < 0 or k >= len(t.bits) for k in ps):
+        return "to_tk:post_selection_key_not_a_bit"
+    if len(t.bits) - len(ps) != len(t.post_processing.dom):
+        return "to_tk:post_processing_width"
+    return None
+
+
+def e2e_signature(label, same_export, defect):
+    """Signature of an export that does not mean what the circuit evaluates to.
+
+    A known finding (F23, F24, F25, F27) is claimed ONLY when the circuit lies in the region of
+    that finding (`label`, the first excluded condition met along the run) AND the real export
+    equals, field by field, the export of the Lean model — which transcribes the unchanged code
+    with these defects — AND the side data are consistent: then the failure is the documented
+    behaviour of the unchanged code.  An export that differs from the model's in such a region, or
+    loses a post-selection anywhere, is a failure of its own."""
+    if defect is not None:
+        return defect
+    if label in TO_TK_SIG:
+        return TO_TK_SIG[label] if same_export else "to_tk:export_differs_from_model_in_known_region"
+    return "to_tk:meaning"
+
+
+def chain_specs(rep, n):
+    """`n` circuits of `ps_chain_prefix` (own generator stream derived from the seed, so that the
+    random circuits after them are those of earlier versions of the check)."""
+    crng = random.Random(1000003 * rep.seed + 13)
+    out = []
+    for _ in range(n):
+        info = {}
+        out.append(T.gen_spec(random.Random(crng.getrandbits(64)), max_regs=6, chain=True, info=info))
+        rep.count("chain:n_ps=%d" % info["n_ps"])
+        rep.count("chain:wire=" + info["wire"])
+        rep.count("chain:how=" + info["how"])
+        rep.count("chain:preps=" + info["preps"])
+    return out
+
+
 def export_stream(rep, rng, drv, budget, Circuit):
-    n_w = len(WITNESSES)
-    specs = WITNESSES + [T.gen_spec(random.Random(rng.getrandbits(64)), max_regs=6)
-                         for _ in range(budget["corr"])]
-    budget = {k: (v + n_w if k != "max_units" else v) for k, v in budget.items()}
+    n_w, n_c = len(WITNESSES), budget["chain"]
+    specs = WITNESSES + chain_specs(rep, n_c) + [
+        T.gen_spec(random.Random(rng.getrandbits(64)), max_regs=6) for _ in range(budget["corr"])]
+    # what is done for the case at index idx: witnesses everything; chain circuits the meaning of the
+    # export, and for the first third the import and the backend as well; random circuits by budget
+    plan = []
+    for idx in range(len(specs)):
+        if idx < n_w:
+            plan.append((True, True, True, 7))
+        elif idx < n_w + n_c:
+            full = idx - n_w < budget["chain_full"]
+            plan.append((True, full, full, budget["max_units"]))
+        else:
+            k = idx - n_w - n_c
+            plan.append((k < budget["oracle"], k < budget["roundtrip"], k < budget["backend"], budget["max_units"]))
     rep.count("witnesses_replayed", n_w)
+    rep.count("chain_circuits", n_c)
     toks = [T.spec_tokens(s) for s in specs]
     answers = drv.ask_many(["totk " + t for t in toks])
     spec_answers = drv.ask_many(["tkspec " + t for t in toks])
     exports, rounds = [], []
     try:
-        _export_loop(rep, budget, Circuit, n_w, specs, toks, answers, spec_answers, exports, rounds)
+        _export_loop(rep, plan, Circuit, specs, toks, answers, spec_answers, exports, rounds)
     finally:
         fromtk_compare(rep, drv, exports, Circuit, "export")
         roundtrip_compare(rep, drv, rounds)
 
 
-def _export_loop(rep, budget, Circuit, n_w, specs, toks, answers, spec_answers, exports, rounds):
+def _export_loop(rep, plan, Circuit, specs, toks, answers, spec_answers, exports, rounds):
     for idx, (spec, tok, ans, sans) in enumerate(zip(specs, toks, answers, spec_answers)):
+        do_oracle, do_round, do_backend, max_units = plan[idx]
         case = dict(spec=repr(spec))
         c = T.build(spec)
         case["circuit"] = str(c)
@@ -343,15 +442,18 @@ def _export_loop(rep, budget, Circuit, n_w, specs, toks, answers, spec_answers, 
         for b, _ in spec[1]:
             rep.count("box:" + b[0])
         rep.count("layers:%d" % len(spec[1]))
-        # ---- functional correspondence
+        # ---- functional correspondence (EVERY generated circuit, inside and outside the fragment:
+        #      the model transcribes the code with its known defects)
         try:
             t = c.to_tk()
             real = "ok " + T.real_export_tokens(t)
         except Exception as exc:
             t, real = None, "err " + err_class(exc)
         mine = "ok " + T.model_export_tokens(fields) if head == "ok" else head
-        if real != mine:
+        same_export = real == mine
+        if not same_export:
             rep.disagree("totk", case, real[:600], mine[:600])
+            rep.count("totk_disagreements:" + ("inside" if label == "-" else label))
         rep.case(tok, head == "ok" and nontrivial(spec, fields))
         rep.sample(dict(request="totk " + tok[:200], answer=ans[:300]))
         rep.count("export:" + real.split()[1] if real.startswith("err") else "export:ok")
@@ -360,11 +462,12 @@ def _export_loop(rep, budget, Circuit, n_w, specs, toks, answers, spec_answers, 
             cls = real.split()[1]
             if cls == "notimpl" and exotic(spec):
                 continue                    # refusal of a box outside the exportable set
-            if cls in ("index", "axiom") and arity_changing(spec):
+            if cls in ("index", "axiom") and arity_changing(spec) and same_export:
                 rep.fail("to_tk:stale_bits", case, "to_tk raises %s after a classical box changed "
                          "the number of bit wires" % cls)
             else:
-                rep.fail("to_tk:raises:" + cls, case, "to_tk raises on a circuit of the exportable set")
+                rep.fail("to_tk:raises:" + cls, case, "to_tk raises on a circuit of the exportable set "
+                         "(the model of the unchanged code answers %s)" % mine[:80])
             continue
         exports.append((case, t))
         if exotic(spec):
@@ -381,9 +484,15 @@ def _export_loop(rep, budget, Circuit, n_w, specs, toks, answers, spec_answers, 
                     rep.disagree("refines", case, "export refines canon", why)
                 rep.count("refines_checked")
                 rounds.append((case, "%d %s" % (1 if t.scalar != 1 else 0, tok)))
-        # ---- the property: meaning of the export
-        if idx >= budget["oracle"]:
+        if head == "ok" and len([kv for kv in fields.get("ps", "").split(",") if kv]) != bra_bits(spec):
+            # to_tk_keeps_post_selections (lean/Props/C13.lean) re-evaluated on the model's answer
+            rep.disagree("ps_count", case, "%d post-selected qubits" % bra_bits(spec), "ps=" + fields.get("ps", ""))
+        # ---- the property: meaning of the export.  Beyond the budget the oracle still runs on every
+        #      circuit on which code and model disagree: that is where a failing input is to be found
+        if not do_oracle and same_export:
             continue
+        if not do_oracle:
+            rep.count("oracle_on_disagreement")
         try:
             ref = reference(c)
         except Exception as exc:
@@ -393,18 +502,34 @@ def _export_loop(rep, budget, Circuit, n_w, specs, toks, answers, spec_answers, 
             else:
                 rep.fail("reference_eval_raises:" + err_class(exc), case, repr(exc)[:200])
             continue
-        raw = T.simulate_tk(t)
-        got = T.exported_distribution(t, raw)
-        e2e_ok = close(got, ref)
+        defect = export_defect(t, spec)
+        sig = e2e_signature(label, same_export, defect)
+        try:
+            raw = T.simulate_tk(t)
+            got = T.exported_distribution(t, raw)
+            e2e_ok = close(got, ref)
+            text = "exported %r means %s, the circuit evaluates to %s (tolerance %g)" % (
+                t, show(got), show(ref), TOL)
+        except Exception as exc:       # the side data do not fit the commands: the export means nothing
+            got, e2e_ok = None, False
+            text = "exported %r has no meaning (%s: post-selection %r, %d bits, post-processing from %d bits); " \
+                   "the circuit evaluates to %s" % (t, err_class(exc), dict(t.post_selection), len(t.bits),
+                                                    len(t.post_processing.dom), show(ref))
+            if defect is None:
+                sig = "to_tk:export_has_no_meaning" if sig == "to_tk:meaning" else sig
         if not e2e_ok:
-            sig = TO_TK_SIG.get(label, "to_tk:meaning")
-            rep.fail(sig, case, "exported %r means %s, the circuit evaluates to %s (tolerance %g)" % (
-                t, show(got), show(ref), TOL))
+            if not same_export:
+                text += "; the model of the unchanged code exports " + mine[:300]
+            elif defect is None and label in TO_TK_SIG:
+                rep.count("known_region_export_equals_model")
+            rep.fail(sig, case, text)
         rep.count("e2e:" + ("ok" if e2e_ok else "fail"))
-        # ---- import of the export: must mean what the export means
-        if idx >= budget["roundtrip"]:
+        if got is None:
             continue
-        if t.n_qubits + len(t.bits) > (7 if idx < n_w else budget["max_units"]):   # 8 units: 6 s a piece
+        # ---- import of the export: must mean what the export means
+        if not do_round:
+            continue
+        if t.n_qubits + len(t.bits) > max_units:   # 8 units: 6 s a piece
             rep.count("roundtrip_skipped_large")     # from_tk keeps every unit as a wire: 4^q * 2^b entries
             continue
         try:
@@ -423,13 +548,13 @@ def _export_loop(rep, budget, Circuit, n_w, specs, toks, answers, spec_answers, 
         except Exception as exc:
             rep.fail(from_tk_sig(t, exc, label), case, "from_tk(%r) raises %s" % (t, repr(exc)[:160]))
         # ---- backend
-        if idx < budget["backend"]:
-            backend_checks(rep, c, t, ref, e2e_ok, label, case)
+        if do_backend:
+            backend_checks(rep, c, t, ref, e2e_ok, sig, case)
 
 
-def backend_checks(rep, c, t, ref, e2e_ok, label, case):
+def backend_checks(rep, c, t, ref, e2e_ok, sig, case):
+    """`sig`: the signature under which a wrong export of this circuit is (already) reported."""
     be = T.ExactBackend()
-    sig = TO_TK_SIG.get(label, "to_tk:meaning")
     try:
         res = c.eval(be)
         if not close(res.array, ref):
